@@ -11,6 +11,7 @@ import itertools
 
 from .. import core, oracles, corpus, values, fixtures
 
+CAP = [48]
 PROPERTY = 'C03'
 LEVEL = 'exploration'
 
@@ -38,7 +39,7 @@ def check_value(label, v, part, indents, rmode):
     L = max(len(x) for x in ref.text.split('\n'))
     cache = {}
     nlayouts = set()
-    for (w, r) in values.width_lattice(L, rmode, cap=48):
+    for (w, r) in values.width_lattice(L, rmode, cap=CAP[0]):
         for ind in indents:
             part.n += 1
             cfg = {'width': w, 'ribbon_width': r, 'indent': ind}
@@ -72,7 +73,8 @@ def check_value(label, v, part, indents, rmode):
 
 def work(item):
     fixtures.register()
-    tree_nodes, lo, hi, indents, rmode, smallmode = item
+    tree_nodes, lo, hi, indents, rmode, cap = item
+    CAP[0] = cap
     part = core.Part()
     for i, (label, v) in enumerate(itertools.islice(corpus.everything(tree_nodes), lo, hi)):
         check_value(label, v, part, indents, rmode)
@@ -87,7 +89,7 @@ def run(tier, seed):
     tree_nodes = 2 if tier == 'quick' else 3
     indents = (4, 1, 8) if tier == 'quick' else (4, 1, 2, 3, 5, 6, 7, 8)
     total = sum(1 for _ in corpus.everything(tree_nodes))
-    items = [(tree_nodes, lo, hi, indents, 'some', None) for lo, hi in core.chunks(total, 192)]
+    items = [(tree_nodes, lo, hi, indents, 'some', 36 if tier == 'quick' else 60) for lo, hi in core.chunks(total, 192)]
     res.add(core.pmap(work, items))
     kinds = {}
     for label, _ in corpus.everything(tree_nodes):
@@ -95,7 +97,7 @@ def run(tier, seed):
         kinds[k] = kinds.get(k, 0) + 1
     res.coverage = {
         'exhaustive': True,
-        'rule': 'every corpus value (%d) x every width 1..min(L,48)+3 (+79, 200) x ribbons {1, w/2, w} x indents %s, AST '
+        'rule': 'every corpus value (%d) x every width 1..min(L,cap)+3 (cap 36 quick / 60 thorough) (+79, 200) x ribbons {1, w/2, w} x indents %s, AST '
                 'compared with the reference configuration; non-trivial = values with more than two distinct layouts'
                 % (total, list(indents)),
         'corpus': kinds,
